@@ -56,11 +56,12 @@ UNBOUND = object()
 
 
 class LoopSpec:
-    def __init__(self, state=None, emits=None, note=None, after=None):
+    def __init__(self, state=None, emits=None, note=None, after=None, unfold=None):
         self.state = state or (lambda k, env: {})
         self.emits = emits
         self.note = note
         self.after = after
+        self.unfold = unfold       # called at the start of the verified iteration: instantiates defining recurrences at k
 
 
 class Marker:
@@ -163,6 +164,8 @@ class LoopRT:
             c.assume((self.k < self.n).z)
             st = self.spec.state(self.k, self.env)
             self._install(st)
+            if self.spec.unfold:
+                self.spec.unfold(self.k, self.env)
             if self.ghost is not None:
                 self.ghost_mark = len(self.ghost)
         return take_body
